@@ -230,6 +230,9 @@ class Executor:
         self.solver.pop()
         self.stats["solver_calls"] += 1
         self.stats["solver_s"] += time.time() - t0
+        if time.time() - t0 > 5 and os.environ.get("E2_TRACE"):
+            import sys as _sys
+            _sys.stderr.write("[slow feasibility %.0fs] %s\n" % (time.time() - t0, str(extra)[:300]))
         if r == z3.unknown:
             raise Unsupported("solver returned unknown on a branch feasibility query")
         return r == z3.sat
@@ -741,6 +744,9 @@ class Executor:
             if base in ("BitOr", "BitXor") and ty[0] == "u":
                 # (hi << k) | lo with lo < 2^k is hi + lo: try the usual field widths
                 za, zb = zint(a), zint(b)
+                if os.environ.get("E2_TRACE"):
+                    import sys as _sys
+                    _sys.stderr.write("[bitor] %s | %s in %s\n" % (str(za)[:120], str(zb)[:120], st.frames[-1].fn.name if st.frames else "?"))
                 ks = [st.shlmap[x.get_id()][0] for x in (za, zb) if x.get_id() in st.shlmap]
                 for k in ks + [32, 64, 16, 8]:
                     for x, y in ((za, zb), (zb, za)):
